@@ -533,7 +533,13 @@ pub fn run(args: &Args, corpus: &[String]) -> Value {
         }
     }
     rep.count("random_trees_depth_3_to_5", n_rand);
-    if shard == 0 {
+    if args.num("lite", 0) != 0 {
+        let per = args.num("corpusfiles", 6) as usize;
+        let mine: Vec<&String> = corpus.iter().enumerate().filter(|(i, _)| *i as u64 % shards == shard).map(|(_, c)| c).collect();
+        for k in 0..per.min(mine.len()) {
+            corpus_roundtrip(&mut rep, mine[(k * 7919 + args.seed as usize) % mine.len()]);
+        }
+    } else if shard == 0 {
         for c in corpus {
             corpus_roundtrip(&mut rep, c);
         }
